@@ -320,11 +320,11 @@ Proof.
   destruct dgt as [|d0 [|d1 t]].
   - match goal with |- context [if ?c then _ else _] => destruct c end.
     + exact Hbase.
-    + rewrite map2_length, Hbase. reflexivity.
+    + unfold tilt_by. rewrite map2_length, Hbase. reflexivity.
   - reflexivity.
   - match goal with |- context [if ?c then _ else _] => destruct c end.
     + exact Hbase.
-    + rewrite map2_length, Hbase. apply Nat.min_id.
+    + unfold tilt_by. rewrite map2_length, Hbase. apply Nat.min_id.
 Qed.
 
 
@@ -455,4 +455,161 @@ Proof.
     unfold dec. cbn. numR. lra. }
   rewrite Hc. apply normalise_mean.
   unfold g1st_of. destruct ripple as [|r0 rt]; [cbn in HL; discriminate|]. cbn. discriminate.
+Qed.
+
+(* ================================================================== the DGT branch of _gain_profile: one secant step *)
+Notation secant_stepR := (@secant_step NumR).
+
+Lemma dec_1em11 : @dec NumR 1 (-11) = 1 / 100000000000.
+Proof. reflexivity. Qed.
+
+(* the DGT scaling returned is where the affine interpolant of the measured average gain through the centre probe and
+   the low (resp. high) probe takes the value eff; when the centre probe already hits eff (1e-11) it is kept *)
+Theorem secant_consistent : forall eff xc gc xl gl xh gh : R,
+  let x3 := secant_stepR eff xc gc xl gl xh gh in
+  (Rabs (eff - gc) <= 1 / 100000000000 -> x3 = xc) /\
+  (1 / 100000000000 < Rabs (eff - gc) -> eff < gc -> gl <> gc -> xl <> xc ->
+     gc + (gl - gc) / (xl - xc) * (x3 - xc) = eff) /\
+  (1 / 100000000000 < Rabs (eff - gc) -> gc <= eff -> gc <> gh -> xc <> xh ->
+     gc + (gc - gh) / (xc - xh) * (x3 - xc) = eff).
+Proof.
+  intros eff xc gc xl gl xh gh x3. unfold x3, secant_step. rewrite dec_1em11. numR. unfold Rleb, Rltb.
+  split; [|split].
+  - intros H. destruct (Rle_dec _ _) as [|Hn]; [reflexivity | contradiction].
+  - intros H Hlt Hg Hx. destruct (Rle_dec _ _) as [Hle|_]; [lra|].
+    destruct (Rlt_dec eff gc) as [_|Hn]; [|contradiction]. field. split; lra.
+  - intros H Hle Hg Hx. destruct (Rle_dec _ _) as [Hle'|_]; [lra|].
+    destruct (Rlt_dec eff gc) as [Hn|_]; [lra|]. field. split; lra.
+Qed.
+
+(* and that scaling is what the returned profile is built with *)
+Theorem gain_profile_dgt_branch : forall (a : ampR) freqs pin dgt ripple (pin_db eff : R),
+  (2 <= length dgt)%nat ->
+  5 / 100 < Rabs (@deltax_of NumR (g1st_of a freqs dgt ripple)) ->
+  let g1st := g1st_of a freqs dgt ripple in
+  let base := @normalise NumR g1st eff in
+  let gavg := fun x : R => @gavg_of NumR pin (@tilt_by NumR base dgt x) pin_db in
+  let xc := eff - @gavg_of NumR pin base pin_db in
+  let dx := @deltax_of NumR g1st in
+  gain_profile a freqs pin dgt ripple pin_db eff =
+  @tilt_by NumR base dgt (secant_stepR eff xc (gavg xc) (xc - dx) (gavg (xc - dx)) (xc + dx) (gavg (xc + dx))).
+Proof.
+  intros a freqs pin dgt ripple pin_db eff H2 Hd. unfold gain_profile.
+  destruct dgt as [|d0 [|d1 t]]; cbn [length] in H2; try lia.
+  assert (Hc : (@nleb NumR (@nabs NumR (@deltax_of NumR (g1st_of a freqs (d0 :: d1 :: t) ripple))) (@dec NumR 5 (-2))) = false).
+  { numR. unfold Rleb. destruct (Rle_dec _ _) as [Hle|]; [|reflexivity]. exfalso.
+    assert (D : @dec NumR 5 (-2) = 5 / 100) by reflexivity. rewrite D in Hle. lra. }
+  cbv zeta. rewrite Hc. reflexivity.
+Qed.
+
+(* ================================================================== the other NF models *)
+Notation nf_stageR := (@nf_stage NumR).
+Notation polyvalR := (@polyval NumR).
+
+Lemma polyval4 : forall a b c d x : R, polyvalR [a; b; c; d] x = a * x ^ 3 + b * x ^ 2 + c * x + d.
+Proof. intros. unfold polyval. cbn [fold_left]. numR. ring. Qed.
+
+(* fixed gain: NF = nf0 inside the gain range, + (gain_min - g) of input padding below it *)
+Theorem nf_fixed : forall (nf0 gmin gmax g pin nch sw : R),
+  fst (nf_stageR (@mkStage NumR (@NFFixed NumR nf0) gmin gmax) g pin nch sw) = Some (nf0 + Rmax (gmin - g) 0).
+Proof. intros. unfold nf_stage. cbn [st_model st_gain_min st_gain_flatmax fst oadd]. rewrite !nmax_R. numR. reflexivity. Qed.
+
+Theorem nf_fixed_const : forall (nf0 gmin gmax g pin nch sw : R), gmin <= g ->
+  fst (nf_stageR (@mkStage NumR (@NFFixed NumR nf0) gmin gmax) g pin nch sw) = Some nf0.
+Proof. intros. rewrite nf_fixed. rewrite Rmax_right by lra. f_equal. lra. Qed.
+
+(* channel input power referred to a 50 GHz slot, as used by the OpenROADM models *)
+Definition pin50 (pin_db nch sw : R) : R := pin_db - lin2dbR nch + lin2dbR (50000000000 / sw).
+
+Lemma dec_50e9 : @dec NumR 50 9 = 50000000000.
+Proof. unfold dec. cbn. numR. lra. Qed.
+
+(* OpenROADM ILA: OSNR contribution = polynomial of the 50 GHz input power; NF = Pin + 58 - OSNR (+ padding) *)
+Theorem nf_openroadm : forall (coef : list R) (gmin gmax g pin nch sw : R),
+  fst (nf_stageR (@mkStage NumR (@NFOpenroadm NumR coef) gmin gmax) g pin nch sw) =
+  Some (pin50 pin nch sw - polyvalR coef (pin50 pin nch sw) + 58 + Rmax (gmin - g) 0).
+Proof.
+  intros. unfold nf_stage, pin50. cbn [st_model st_gain_min st_gain_flatmax fst oadd]. rewrite !nmax_R, dec_50e9. numR. reflexivity.
+Qed.
+
+Theorem nf_openroadm_preamp : forall (gmin gmax g pin nch sw : R),
+  fst (nf_stageR (@mkStage NumR (@NFOpenroadmPreamp NumR) gmin gmax) g pin nch sw) =
+  Some (pin50 pin nch sw - Rmin ((4 * pin50 pin nch sw + 275) / 7) 33 + 58 + Rmax (gmin - g) 0).
+Proof.
+  intros. unfold nf_stage, pin50. cbn [st_model st_gain_min st_gain_flatmax fst oadd]. rewrite !nmax_R, nmin_R, dec_50e9. numR. reflexivity.
+Qed.
+
+(* the OpenROADM booster is noiseless: no ASE whatever the channel *)
+Theorem nf_openroadm_booster : forall (gmin gmax g pin nch sw : R) (c : chR),
+  fst (nf_stageR (@mkStage NumR (@NFOpenroadmBooster NumR) gmin gmax) g pin nch sw) = None /\
+  @ase_in NumR c None = 0.
+Proof. intros. split; [reflexivity|]. unfold ase_in, odb2lin. numR. ring. Qed.
+
+(* advanced model: polynomial in the gain decrease below gain_flatmax (+ padding) *)
+Theorem nf_advanced : forall (fit : list R) (gmin gmax g pin nch sw : R),
+  fst (nf_stageR (@mkStage NumR (@NFAdvanced NumR fit) gmin gmax) g pin nch sw) =
+  Some (polyvalR fit (- Rmax (gmax - (g + Rmax (gmin - g) 0)) 0) + Rmax (gmin - g) 0).
+Proof. intros. unfold nf_stage. cbn [st_model st_gain_min st_gain_flatmax fst oadd]. rewrite !nmax_R. numR. rewrite ?nmax_R. reflexivity. Qed.
+
+(* variable gain: nf_stage is nf_variable *)
+Lemma nf_stage_variable : forall (nf1 nf2 dp gmin gmax g pin nch sw : R),
+  fst (nf_stageR (@mkStage NumR (@NFVariable NumR nf1 nf2 dp) gmin gmax) g pin nch sw) = Some (nf_variableR nf1 nf2 dp gmin gmax g).
+Proof. intros. unfold nf_stage, nf_variable. cbn [st_model st_gain_min st_gain_flatmax fst oadd]. reflexivity. Qed.
+
+(* ---- dual stage *)
+Notation calc_nf_avgR := (@calc_nf_avg NumR).
+
+(* Friis form of what the code computes: the preamp runs at its maximum flat gain g1, the booster gets eff - g1 *)
+Theorem nf_dual_friis : forall (pre boost : @stage NumR) (eff pin nch sw : R),
+  let g1 := st_gain_flatmax pre in
+  let n1 := fst (nf_stageR pre g1 pin nch sw) in
+  let n2 := fst (nf_stageR boost (eff - g1) pin nch sw) in
+  calc_nf_avgR (@Dual NumR pre boost) eff pin nch sw = Some (lin2dbR (odb2linR n1 + odb2linR n2 / db2linR g1)).
+Proof.
+  intros. unfold calc_nf_avg. fold g1. numR. fold n1 n2. f_equal. f_equal. f_equal.
+  destruct n2 as [x|]; cbn [oadd odb2lin].
+  - numR. replace (x + - g1) with (x - g1) by lra. apply db2lin_minus.
+  - numR. unfold Rdiv. rewrite Rmult_0_l. reflexivity.
+Qed.
+
+Lemma odb2lin_nonneg : forall n, 0 <= odb2linR n.
+Proof. intros [x|]; cbn [odb2lin]; [left; apply db2lin_pos | numR; lra]. Qed.
+
+(* the cascade is never quieter than its first stage *)
+Theorem nf_dual_ge_preamp : forall (pre boost : @stage NumR) (eff pin nch sw n1 : R),
+  fst (nf_stageR pre (st_gain_flatmax pre) pin nch sw) = Some n1 ->
+  exists nf, calc_nf_avgR (@Dual NumR pre boost) eff pin nch sw = Some nf /\ n1 <= nf.
+Proof.
+  intros pre boost eff pin nch sw n1 H1. rewrite nf_dual_friis. cbv zeta. rewrite H1. cbn [odb2lin].
+  eexists. split; [reflexivity|].
+  rewrite <- (lin2db_db2lin n1) at 1. apply lin2db_le; [apply db2lin_pos|].
+  assert (H := odb2lin_nonneg (fst (nf_stageR boost (eff - st_gain_flatmax pre) pin nch sw))).
+  assert (G := db2lin_pos (st_gain_flatmax pre)).
+  assert (0 <= odb2linR (fst (nf_stageR boost (eff - st_gain_flatmax pre) pin nch sw)) / db2linR (st_gain_flatmax pre)).
+  { unfold Rdiv. apply Rmult_le_pos; [exact H | left; apply Rinv_0_lt_compat; exact G]. }
+  lra.
+Qed.
+
+(* with a variable-gain (nf_min/nf_max) booster, the cascade NF never increases with the gain as long as the booster is
+   not padded *)
+Theorem nf_dual_antitone : forall (pre : @stage NumR) (nf1 nf2 dp bmin bmax eff eff' pin nch sw n1 : R),
+  fst (nf_stageR pre (st_gain_flatmax pre) pin nch sw) = Some n1 ->
+  bmin <= eff - st_gain_flatmax pre -> eff <= eff' ->
+  exists a b,
+    calc_nf_avgR (@Dual NumR pre (@mkStage NumR (@NFVariable NumR nf1 nf2 dp) bmin bmax)) eff pin nch sw = Some a /\
+    calc_nf_avgR (@Dual NumR pre (@mkStage NumR (@NFVariable NumR nf1 nf2 dp) bmin bmax)) eff' pin nch sw = Some b /\
+    b <= a.
+Proof.
+  intros pre nf1 nf2 dp bmin bmax eff eff' pin nch sw n1 H1 Hb He.
+  rewrite !nf_dual_friis. cbv zeta. rewrite H1, !nf_stage_variable. cbn [odb2lin].
+  do 2 eexists. split; [reflexivity|]. split; [reflexivity|].
+  set (g1 := st_gain_flatmax pre) in *.
+  assert (Hn := nf_antitone nf1 nf2 dp bmin bmax (eff - g1) (eff' - g1) Hb ltac:(lra)).
+  assert (P1 := db2lin_pos n1). assert (G := db2lin_pos g1).
+  assert (Pa := db2lin_pos (nf_variableR nf1 nf2 dp bmin bmax (eff - g1))).
+  assert (Pb := db2lin_pos (nf_variableR nf1 nf2 dp bmin bmax (eff' - g1))).
+  assert (Hd := db2lin_le _ _ Hn).
+  apply lin2db_le.
+  - apply Rplus_lt_0_compat; [exact P1 | apply Rdiv_lt_0_compat; assumption].
+  - apply Rplus_le_compat_l. unfold Rdiv. apply Rmult_le_compat_r; [left; apply Rinv_0_lt_compat; exact G | exact Hd].
 Qed.
